@@ -446,5 +446,67 @@ pub fn sets(ctx: &Ctx) -> Vec<CaseSet> {
             }
         }),
     ));
+    // long flat streams read item by item in child processes with a 2 MiB stack (both the
+    // optimised monitoring build and the dev build): the number of items must be exact
+    // and the process must not die, however many trivia lines or items there are
+    let reps: usize = if ctx.thorough { 1_000_000 } else { 200_000 };
+    out.push(CaseSet::new(
+        "long-flat-streams-children",
+        crate::props::c03::FLAT_UNITS.len() as u64,
+        Box::new(move |rep, _rng, case| {
+            use crate::mon::child::{self, Exit};
+            let (name, unit) = crate::props::c03::FLAT_UNITS[case as usize];
+            // datums per unit
+            let per_unit: u64 = match name {
+                "comment-lines" | "empty-comment-lines" | "blank-lines" | "spaces" | "crlf-tab" | "form-feeds" => 0,
+                "quoted" => 1,
+                _ => 1,
+            };
+            let _ = unit;
+            let me = std::env::current_exe().unwrap().to_string_lossy().to_string();
+            let mut bins = vec![("mon", me)];
+            if let Ok(d) = std::env::var("VH_DEV_BIN") {
+                if !d.is_empty() {
+                    bins.push(("dev", d));
+                }
+            }
+            for (label, bin) in bins {
+                for (api, src) in [("value", "str"), ("value", "reader"), ("datum", "reader")] {
+                    let args: Vec<String> = vec!["child".into(), "c03-flat".into(), case.to_string(), reps.to_string(), "top-level".into(), api.into(), src.into()];
+                    let r = child::run(&bin, &args, std::time::Duration::from_secs(600));
+                    rep.eval();
+                    rep.distinct(hash2(hash_str(name), hash2(hash_str(label), hash2(hash_str(api), hash_str(src)))));
+                    let expected = per_unit * reps as u64 + 1; // + the final `end`
+                    match &r.exit {
+                        Exit::Code(0) => {
+                            let want = format!("RESULT items={} errors=0", expected);
+                            if r.stdout.contains(&want) {
+                                rep.count("long-stream:exact-item-count");
+                            } else {
+                                rep.violation(
+                                    "long-stream",
+                                    format!("C12:long-stream-item-count:{}", name),
+                                    format!("{} x {} then `end` read item by item ({} api, {} source, {} build): expected {} items and no error, child reports {:?}", name, reps, api, src, label, expected, r.stdout.trim()),
+                                    json!({"unit": name, "api": api, "src": src, "build": label, "reps": reps}),
+                                );
+                                return;
+                            }
+                        }
+                        _ if r.stack_overflow() => {
+                            rep.violation(
+                                "long-stream",
+                                format!("C12:long-stream-stack-overflow:{}", name),
+                                format!("{} x {} then `end` read item by item ({} api, {} source, {} build, 2 MiB thread): the process died of stack overflow ({:?})", name, reps, api, src, label, r.exit),
+                                json!({"unit": name, "api": api, "src": src, "build": label, "reps": reps}),
+                            );
+                            return;
+                        }
+                        Exit::Timeout => rep.inconclusive(format!("child watchdog fired for long stream {} {} {}", name, api, src)),
+                        other => rep.inconclusive(format!("long-stream child {} {} {} ended unexpectedly: {:?} {}", name, api, src, other, r.stderr_tail)),
+                    }
+                }
+            }
+        }),
+    ));
     out
 }
